@@ -224,6 +224,7 @@ def gen_modules(rng, n, edges, defects=(), prefix=""):
     for i in range(n):
         modpath = (dirs[i] + "." if dirs[i] else "") + "m%d" % i
         stmts = [("I", mods[j]["modpath"]) for j in range(i) if (i, j) in edges]
+        rng.shuffle(stmts)                                            # the module's own imports in any order
         if stmts and rng.random() < 0.3:
             stmts.append(stmts[0])                                    # a module importing twice
         pool_val, pool_fun, pool_str = [], [], []
@@ -1247,7 +1248,7 @@ def build_cases(seed, tier):
     cases = []
     # (1) every import DAG over n modules (module i may import j < i), content from the seed
     if tier == "quick":
-        plan = [(1, 6), (2, 12), (3, 16)]          # (n, content seeds per graph)
+        plan = [(1, 4), (2, 8), (3, 12)]           # (n, content seeds per graph)
     else:
         plan = [(1, 4), (2, 6), (3, 8), (4, 6), (5, 2)]
     for n, reps in plan:
@@ -1260,7 +1261,7 @@ def build_cases(seed, tier):
     shapes = [("chain4", {(1, 0), (2, 1), (3, 2)}), ("diamond4", {(1, 0), (2, 0), (3, 1), (3, 2)}),
               ("fan4", {(1, 0), (2, 0), (3, 0)}), ("zigzag4", {(1, 0), (2, 1), (3, 1), (3, 0)})]
     for nm, edges in shapes:
-        for r in range(12 if tier == "quick" else 60):
+        for r in range(8 if tier == "quick" else 60):
             cases.append(make_graph_case(seed, nm, r, 4, edges, prefix=BLIND if r % 4 == 3 else ""))
     # (2) defect shapes: table agreement only (the model is faithful to the defects), no oracle
     nd = 24 if tier == "quick" else 200
@@ -1291,13 +1292,13 @@ def build_cases(seed, tier):
         for place in ("dotted", "literal", "both", "none"):
             cases.append(make_pathform_case(mp, place))
     # (5) clashes: last import wins, the importer's own definition wins
-    for k in range(100 if tier == "quick" else 800):
+    for k in range(80 if tier == "quick" else 800):
         cases.append(make_clash_case(rng_for(seed, "c18-clash", k), k))
     # (7) initialisers with side effects: run once, dependencies first
-    for k in range(30 if tier == "quick" else 300):
+    for k in range(24 if tier == "quick" else 300):
         cases.append(make_effects_case(rng_for(seed, "c18-effects", k), k))
     # (6) selective imports: exactly the listed exported names
-    for k in range(40 if tier == "quick" else 400):
+    for k in range(30 if tier == "quick" else 400):
         cases.append(make_selective_case(rng_for(seed, "c18-selective", k), k))
     return cases
 
